@@ -37,6 +37,26 @@ extern size_t __sanitizer_get_allocated_size(const volatile void *p);
 #ifdef X30_CXX
 extern int x30_cxx_set_metatype(void *node, void *mt);
 extern long x30_cxx_print(void *mt);
+extern void *x30_cxx_new_encoded(void);
+#endif
+
+#ifdef X30_SEAM
+/* executable "creators_seam": the allocating sources of mptcore are compiled in with malloc/realloc/calloc/free
+ * renamed to these; arg.fail = k refuses the k-th allocation of the step.  Everything else is forwarded, so the
+ * sanitizer runtime (and its hooks above) still sees every block. */
+#include <errno.h>
+static long fail_after = -1;
+static int fired;
+static int vf_refuse(void)
+{
+	if (fail_after < 0 || fail_after-- > 0) return 0;
+	fired = 1; errno = ENOMEM;
+	return 1;
+}
+void *vf_malloc(size_t n) { return vf_refuse() ? 0 : malloc(n); }
+void *vf_calloc(size_t a, size_t b) { return vf_refuse() ? 0 : calloc(a, b); }
+void *vf_realloc(void *p, size_t n) { return (n && vf_refuse()) ? 0 : realloc(p, n); }
+void vf_free(void *p) { free(p); }
 #endif
 
 #define MAXH 8
@@ -117,6 +137,14 @@ static MPT_INTERFACE(metatype) *make_meta(const char *sz)
 	const char *ptr;
 	if (!strcmp(sz, "null")) {
 		return mpt_meta_new(0);
+	}
+	if (!strcmp(sz, "enc")) {
+		/* buffer metatype of libmpt++ with a message in progress in its encoder */
+#ifdef X30_CXX
+		return (MPT_INTERFACE(metatype) *) x30_cxx_new_encoded();
+#else
+		return 0;
+#endif
 	}
 	if (!strcmp(sz, "buf")) {
 		MPT_STRUCT(array) a = MPT_ARRAY_INIT;
@@ -226,6 +254,9 @@ static void emit(struct cmd *c, const char *ret)
 	j_ints("par", v, nobj);
 	j_int("badfree", badfree);
 	j_int("quiet", nblk);
+#ifdef X30_SEAM
+	j_int("fired", fired);
+#endif
 	drv_dbg();
 	j_int("made", made);
 	j_int("blocks", nblk);
@@ -267,6 +298,10 @@ static void drv_step(struct cmd *c)
 		emit(c, ret);
 		return;
 	}
+#ifdef X30_SEAM
+	fired = 0;
+	fail_after = drv_int(c, "fail", 0) > 0 ? (long) drv_int(c, "fail", 0) - 1 : -1;
+#endif
 	tracking = 1;
 	if (!strcmp(a, "newmeta")) {
 		const char *sz = drv_raw(c, "sz");
@@ -277,7 +312,7 @@ static void drv_step(struct cmd *c)
 	}
 	else if (!strcmp(a, "newnode")) {
 		const char *nm = drv_raw(c, "nm");
-		int len = (nm && !strcmp(nm, "long")) ? 200 : 3;
+		int len = (nm && !strcmp(nm, "long")) ? 300 : 3;    /* "long": beyond what mpt_node_new reserves inline (0x100 for the whole node) */
 		MPT_STRUCT(node) *nd;
 		if (h < 1 || h > nh || hnd[h - 1]) ret = "baddrv";
 		else if (!(nd = mpt_node_new(len + 1))) ret = "refused";
@@ -412,6 +447,9 @@ static void drv_step(struct cmd *c)
 		ret = "baddrv";
 	}
 	tracking = 0;
+#ifdef X30_SEAM
+	fail_after = -1;
+#endif
 	emit(c, ret);
 }
 
